@@ -228,7 +228,8 @@ def bl_subscript(ip, obj, idx):
 
 
 def bl_store(ip, obj, idx, v):
-    if obj.f.get("view") == "copy" and isinstance(v, Struct) and v.cls == "NewBracket":
+    if obj.f.get("view") in ("copy", None) and isinstance(v, Struct) and v.cls == "NewBracket":
+        # (view None: the list object itself is modified - every alias sees it)
         b = BRK(obj.f["t"], term(idx))
         ip.vc.check("store#bracket-is-replaced-by-base^(exponent-1)",
                     z3.And(v.f["base"] == BRV(b), v.f["exp"] == BRE(b) - 1, z3.Not(BRX(b))))
